@@ -354,6 +354,57 @@ def wfSeq (cc : CC) (s : Seq) : Bool := wfPaths cc s && !s.isEmpty
 
 def wfExpr (cc : CC) (e : Expr) : Bool := e.flags.all isMP && wfSeq cc e.seq
 
+/-! ## the parser's range
+
+Same shape conditions with a parameter `okf` for fixed names, and the list of the
+fixed names of a tree.  `lexable`: what `string_value` can deliver. -/
+
+/-- a fixed name the lexer can deliver: it has a notation, or it ends with a backslash -/
+def lexable (s : Str) : Bool := printable s || endsWithBackslash s
+
+mutual
+def gwfElem (cc : CC) (okf : Str → Bool) : Elem → Bool
+  | .parent t => identOk cc t
+  | .nav n c f =>
+    identOk cc n &&
+      (match f with
+       | none => true
+       | some fx => !c && okf fx)
+  | .brackets s => gwfPaths cc okf s && !s.isEmpty
+  | .star s => gwfPaths cc okf s && !s.isEmpty
+  | .dots n => decide (0 < n)
+def gwfTail (cc : CC) (okf : Str → Bool) : List Elem → Bool
+  | [] => true
+  | e :: es => !e.isDots && gwfElem cc okf e && gwfTail cc okf es
+def gwfPath (cc : CC) (okf : Str → Bool) : List Elem → Bool
+  | [] => false
+  | e :: es => gwfElem cc okf e && gwfTail cc okf es
+def gwfPaths (cc : CC) (okf : Str → Bool) : List (List Elem) → Bool
+  | [] => true
+  | p :: ps => gwfPath cc okf p && gwfPaths cc okf ps
+end
+
+def gwfSeq (cc : CC) (okf : Str → Bool) (s : Seq) : Bool := gwfPaths cc okf s && !s.isEmpty
+
+def gwfExpr (cc : CC) (okf : Str → Bool) (e : Expr) : Bool := e.flags.all isMP && gwfSeq cc okf e.seq
+
+mutual
+def fixedElem : Elem → List Str
+  | .nav _ _ (some fx) => [fx]
+  | .brackets s => fixedPaths s
+  | .star s => fixedPaths s
+  | _ => []
+def fixedPath : List Elem → List Str
+  | [] => []
+  | e :: es => fixedElem e ++ fixedPath es
+def fixedPaths : List (List Elem) → List Str
+  | [] => []
+  | p :: ps => fixedPath p ++ fixedPaths ps
+end
+
+/-- the fixed names occurring in an expression -/
+def fixedNames (e : Expr) : List Str := fixedPaths e.seq
+
 /-! ## nesting depth -/
 mutual
 def depthElem : Elem → Nat
